@@ -21,8 +21,8 @@ best, size = None, 0
 for k in range(len(idx)):
     ev = [r["e"] for r in seg(k)]
     segs = [r["seg"] for r in seg(k) if r["e"] == "SetDetPair"]
-    if all(e in ev for e in ("IterGeo", "IterBlock", "KLStep", "MLEStep")) and max(segs) > 0:
-        n = len(seg(k)[1]["m"])
+    if all(e in ev for e in ("IterGeo", "IterBlock", "KLStep", "MLEStep", "NormEff")) and max(segs) > 0:
+        n = len([r for r in seg(k) if r["e"] == "MakeFan"][0]["m"])
         if 100 < n and (best is None or n < size):
             best, size = k, n
 if best is None:
@@ -50,6 +50,10 @@ def bump(kind, fld, pred=lambda r: True):
                 if kind == "MakeFan" and fld == "dm":      # an input bin that some entry holds (gap bins are not converted)
                     held = set(zip(r["m"], r["ex"]))
                     cand = [j for j in cand if (r["dm"][j], r["de"][j]) in held]
+                if kind in ("IterGeo", "IterBlock"):     # only entries with a fully covered class / block pair are demanded: alter all
+                    for j in cand:
+                        r[fld][j] += 1
+                    return i
                 j = random.choice(cand)
                 r[fld][j] += 1 if fld[-1] != "m" else 2
                 return i
@@ -104,8 +108,8 @@ def mle_exact(kind):      # an estimate written by the whole estimation function
     def f(s):
         for i, r in enumerate(s):
             if r["e"] == "MLEStep" and r["kind"] == kind and "m" in r:
-                j = random.choice([j for j, v in enumerate(r["m"]) if v != 0])
-                r["ex"][j] += 1
+                for j in [j for j, v in enumerate(r["m"]) if v != 0]:    # (only fully covered classes / block pairs are demanded: alter all)
+                    r["ex"][j] += 1
                 return i
         raise SystemExit("no exact MLEStep " + kind)
     return f
@@ -135,6 +139,20 @@ def mle_order(s):         # a result file missing: the steps are out of order
 
 
 variant(mle_order, "MLEStep: geometric step missing")
+
+
+def norm_stale(s):        # the normalisation object answers with the efficiencies of the previous round of factors
+    prev = None
+    for i, r in enumerate(s):
+        if r["e"] == "NormEff":
+            if prev is not None:
+                r["m"], r["ex"] = list(prev["m"]), list(prev["ex"])
+                return i
+            prev = r
+    raise SystemExit("no second NormEff line")
+
+
+variant(norm_stale, "NormEff: efficiencies of the previous factors")
 
 
 def drop_apply(s):
